@@ -226,6 +226,14 @@ func joinModel(c *Case, cl *classifier, lines []*jline, seen func(id string) boo
 				unsafeGap = true // neither impossible nor certain: the generator never produces it
 			}
 		}
+		if c.Selector != "" && cur == nil {
+			// the action is idle: an event its selector does not pick skips it and passes unchanged
+			// (while a run is open the action receives every event of the stream, see Case.Selector)
+			if sel := l.node.Get("sel"); sel == nil || sel.Kind != 's' || sel.Str != "1" {
+				exp = append(exp, expEvent{first: l})
+				continue
+			}
+		}
 		switch l.kind {
 		case 's':
 			switch {
@@ -574,6 +582,12 @@ func classify(c *Case, o *vkit.Outcome, maxRun, timeoutCuts, joinedRuns, limited
 	}
 	if res.tapDiscards > 0 {
 		o.Class("emitted-events-discarded-by-a-later-action")
+	}
+	if c.Selector != "" {
+		o.Class("action-with-selector:" + c.Selector)
+	}
+	if c.DeferOut > 0 {
+		o.Class("output-encodes-after-out-returned")
 	}
 	if c.PassBefore+c.PassAfter > 0 {
 		o.Class("with-pass-through-actions")
